@@ -119,7 +119,8 @@ func listenerNotLeaked(c *Ctx, r *Report, rule string) {
 }
 
 // envelopeBuffer: an envelope of a transfer may be as large as a DNS message can be, whatever the transport's usual
-// receive size: Transfer.ReadMsg reads into a buffer of MaxMsgSize octets.
+// receive size: every buffer that Transfer.ReadMsg (or a function of the package it calls) allocates and hands to a
+// read has MaxMsgSize octets, or exactly the length the two-octet prefix announced.
 func envelopeBuffer(c *Ctx, r *Report, rule string) {
 	fn := c.ssaFunc("Transfer.ReadMsg")
 	max, okK := c.constInt("MaxMsgSize")
@@ -128,24 +129,96 @@ func envelopeBuffer(c *Ctx, r *Report, rule string) {
 		return
 	}
 	r.fn("Transfer.ReadMsg")
-	okBuf := false
-	for _, ci := range callsIn(fn, "(Transfer).Read", "(*Transfer).Read", "(Conn).Read") {
-		for _, a := range ci.Common().Args {
-			for o := range sliceOf(a) {
-				if mk, ok := o.(*ssa.MakeSlice); ok {
-					if k, isK := constIntOf(mk.Len); isK && k >= max {
-						okBuf = true
-					}
-				}
-				if al, ok := o.(*ssa.Alloc); ok { // make with a constant length
-					if at, isArr := al.Type().(*types.Pointer).Elem().Underlying().(*types.Array); isArr && at.Len() >= max {
-						okBuf = true
-					}
+	var fns []*ssa.Function
+	seen := map[*ssa.Function]bool{}
+	var collect func(f *ssa.Function, depth int)
+	collect = func(f *ssa.Function, depth int) {
+		if f == nil || seen[f] || depth > 2 || len(f.Blocks) == 0 || f.Pkg != fn.Pkg {
+			return
+		}
+		seen[f] = true
+		fns = append(fns, f)
+		allInstrs(f, func(in ssa.Instruction) {
+			if ci, ok := in.(ssa.CallInstruction); ok {
+				name := calleeNameSSA(ci.Common())
+				// only the readers: what is done with the message afterwards allocates for other purposes
+				if strings.Contains(name, "Read") {
+					collect(ci.Common().StaticCallee(), depth+1)
 				}
 			}
-		}
+		})
 	}
-	r.check(okBuf, rule, "Transfer.ReadMsg:buffer", c.pos(fn.Pos()), fmt.Sprintf("make([]byte, %d)", max), "the envelope is not read into a buffer of MaxMsgSize octets: a valid envelope larger than the transport's default receive size (an IXFR answer over UDP above 512 octets) is cut and the transfer fails")
+	collect(fn, 0)
+	isRead := func(name string) bool {
+		return name == "(Conn).Read" || name == "io.ReadFull" || name == "(net.Conn).Read" || name == "io.ReadAtLeast" || name == "(io.Reader).Read"
+	}
+	n := 0
+	var bad []string
+	for _, f := range fns {
+		allInstrs(f, func(in ssa.Instruction) {
+			call, ok := in.(*ssa.Call)
+			if !ok || !isRead(calleeNameSSA(&call.Call)) {
+				return
+			}
+			for _, a := range call.Call.Args {
+				if _, isSl := a.Type().Underlying().(*types.Slice); !isSl {
+					continue
+				}
+				for o := range sliceOf(a) {
+					var ln ssa.Value
+					var constLen int64 = -1
+					switch t := o.(type) {
+					case *ssa.MakeSlice:
+						ln = t.Len
+						if k, isK := constIntOf(t.Len); isK {
+							constLen = k
+						}
+					case *ssa.Alloc:
+						if at, isArr := t.Type().(*types.Pointer).Elem().Underlying().(*types.Array); isArr {
+							if bt, ok := at.Elem().Underlying().(*types.Basic); ok && bt.Kind() == types.Uint8 {
+								constLen = at.Len()
+							} else {
+								continue
+							}
+						} else {
+							continue
+						}
+					default:
+						continue
+					}
+					n++
+					if constLen >= max {
+						continue
+					}
+					if constLen < 0 && ln != nil {
+						// the announced length: a 16-bit value widened
+						from16 := anyIn(sliceOf(ln), func(v ssa.Value) bool {
+							bt, ok := v.Type().Underlying().(*types.Basic)
+							return ok && bt.Kind() == types.Uint16
+						})
+						onlyWidened := true
+						if cv, isCv := ln.(*ssa.Convert); isCv {
+							if bt, ok := cv.X.Type().Underlying().(*types.Basic); !ok || bt.Kind() != types.Uint16 {
+								onlyWidened = false
+							}
+						} else {
+							onlyWidened = false
+						}
+						if from16 && onlyWidened {
+							continue
+						}
+					}
+					what := fmt.Sprintf("%d octets", constLen)
+					if constLen < 0 {
+						what = describeValue(ln) + " octets"
+					}
+					bad = append(bad, fmt.Sprintf("%s reads into a buffer of %s allocated at %s", c.pos(call.Pos()), what, c.pos(o.(ssa.Instruction).Pos())))
+				}
+			}
+		})
+	}
+	sort.Strings(bad)
+	r.check(n > 0 && len(bad) == 0, rule, "Transfer.ReadMsg:buffer", c.pos(fn.Pos()), fmt.Sprintf("%d receive buffers, each MaxMsgSize (%d) or the announced length", n, max), "an envelope is read into a buffer smaller than a DNS message can be (%s): a valid envelope larger than the transport's default receive size (an IXFR answer over UDP above 512 octets) is cut and the transfer fails", strings.Join(uniqStrings(bad), "; "))
 }
 
 // perEnvelopeDeadline: the read deadline of a transfer is re-armed for every envelope (ReadTimeout bounds the wait for
@@ -164,10 +237,44 @@ func perEnvelopeDeadline(c *Ctx, r *Report, rule string) {
 		}
 		r.fn(name)
 		n, inLoop := 0, 0
+		deadlineNames := []string{"(Transfer).SetReadDeadline", "(*Transfer).SetReadDeadline", "(Conn).SetReadDeadline", "(net.Conn).SetReadDeadline"}
+		armsDeadline := func(g *ssa.Function) bool {
+			// on every path: the call dominates all returns
+			if g == nil || len(g.Blocks) == 0 {
+				return false
+			}
+			for _, ci := range callsIn(g, deadlineNames...) {
+				all := true
+				for _, b := range g.Blocks {
+					if _, isRet := b.Instrs[len(b.Instrs)-1].(*ssa.Return); isRet && !(ci.(ssa.Instruction).Block() == b || ci.(ssa.Instruction).Block().Dominates(b)) {
+						all = false
+					}
+				}
+				if all {
+					return true
+				}
+			}
+			return false
+		}
 		for _, sub := range withAnon(fn) {
-			for _, ci := range callsIn(sub, "(Transfer).SetReadDeadline", "(*Transfer).SetReadDeadline", "(Conn).SetReadDeadline", "(net.Conn).SetReadDeadline") {
+			allInstrs(sub, func(in ssa.Instruction) {
+				ci, ok := in.(ssa.CallInstruction)
+				if !ok {
+					return
+				}
+				name := calleeNameSSA(ci.Common())
+				direct := false
+				for _, d := range deadlineNames {
+					if name == d {
+						direct = true
+					}
+				}
+				// a reader of the package that arms the deadline itself on every path counts as the call
+				if !direct && !(ci.Common().StaticCallee() != nil && ci.Common().StaticCallee().Pkg == fn.Pkg && armsDeadline(ci.Common().StaticCallee())) {
+					return
+				}
 				n++
-				blk := ci.(ssa.Instruction).Block()
+				blk := in.Block()
 				for s := range reach(blk, nil, nil) {
 					for _, p := range s.Succs {
 						if p == blk {
@@ -175,7 +282,7 @@ func perEnvelopeDeadline(c *Ctx, r *Report, rule string) {
 						}
 					}
 				}
-			}
+			})
 		}
 		r.check(n > 0 && inLoop > 0, rule, name, c.pos(fn.Pos()), "re-armed in the loop", "%s arms the read deadline outside its receive loop (%d calls, %d inside a loop): ReadTimeout then bounds the whole transfer, and a valid transfer whose envelopes are paced or slowly consumed is cut off with an i/o timeout", name, n, inLoop)
 	}
